@@ -1,11 +1,13 @@
 (* Rename.v — C08: `Tree::change_key` (liwe/src/model/tree.rs:272-303),
    `GraphInline::change_key` (liwe/src/model/graph.rs:307-360), the reference scan that
    `handle_rename` takes from the index, `handle_rename` itself
-   (iwes/src/router/server.rs:398-503) and the editor's side, `apply_edits`.
+   (iwes/src/router/server.rs:395-502) and the editor's side, `apply_edits`.
    No proofs here (RenameFacts.v).
 
-   Variants: [fixes] switches three repairs on and off; [as_found] is the unchanged tree.
-   fx_meta = fix-rename-front-matter.patch, fx_dangling = fix-rename-dangling.patch;
+   Variants: [fixes] switches four repairs on and off; [as_found] is the unchanged tree.
+   fx_meta = fix-rename-front-matter.patch (dae68d5), fx_dangling = fix-rename-dangling.patch
+   (b92b513), fx_subdir = "rename reads the new name from the directory of the note that holds
+   the cursor" (one key for the whole of handle_rename);
    fx_label (keep the link text) is modelled but not delivered: it fails the unedited suite. *)
 From IweV Require Import Str Text Ast RelPath Arena Project Library.
 Local Open Scope string_scope.
@@ -14,10 +16,11 @@ Local Open Scope list_scope.
 Record fixes := FX {
   fx_label : bool;      (* GraphInline::change_key keeps the link text (no patch: see above) *)
   fx_meta : bool;       (* the front matter moves with the note *)
-  fx_dangling : bool    (* a link to no note under the cursor: no edit instead of a panic *)
+  fx_dangling : bool;   (* a link to no note under the cursor: no edit instead of a panic *)
+  fx_subdir : bool      (* the new name is read once, from the directory of the cursor's note *)
 }.
-Definition as_found : fixes := FX false false false.
-Definition repaired : fixes := FX true true true.
+Definition as_found : fixes := FX false false false false.
+Definition repaired : fixes := FX true true true true.
 
 (* ---------- GraphInline::change_key ------------------------------------------------------- *)
 
@@ -164,21 +167,38 @@ Definition note_by_key (L : tlib) (k : string) (dflt : tnote) : tnote :=
   match tl_find L k with Some n => n | None => dflt end.
 
 (* [site]: what `parser.url_at(position)` returned for the document [doc] (an oracle: the
-   reader and its positions belong to C13); [Panic] when the reader panicked *)
+   reader and its positions belong to C13); [Panic] when the reader panicked.
+
+   server.rs:395-502.  `relative_to` (399-404) is the directory of the note that holds the cursor;
+   `new_key = Key::from_rel_link_url(&params.new_name, relative_to)` (408) is the new name read
+   from that directory, like the url under the cursor (the placeholder of prepare-rename is that
+   url as written).  It is the one key of the function: the "already taken" test (410),
+   `move_metadata` (450), `build_key` (452), both `change_key` calls (456, 465), `export_key` (490)
+   and - through `to_full_url`, like the delete operation - the create / insert operations (484-492).
+   As found ([fx_subdir] = false) only `export_key` used it; everything else used
+   `params.new_name.into()` = `Key::from_file_name(new_name)`, the name read from the library root,
+   and the new file was `name_to_url(new_name)`: from a sub-directory (or with a name not spelled
+   like its key, `./x`) the patch was built under one key and exported under another. *)
+(* the key the note is filed under in the patch *)
+Definition new_key_of (fx : fixes) (doc new_name : string) : string :=
+  if fx_subdir fx then from_rel_link_url new_name (key_parent doc)   (* server.rs:408 *)
+  else key_from_file_name new_name.                                  (* as found: `new_name.into()` *)
+
 Definition rename_core (fx : fixes) (o : opts) (scan : scan_t) (L : tlib) (doc : string)
            (site : res (option string)) (new_name : string) : res rresult :=
-  let new := key_from_file_name new_name in                         (* `new_name.into()` *)
+  let rel := key_parent doc in                                       (* server.rs:399-404 *)
+  let new_key := from_rel_link_url new_name rel in                   (* server.rs:408 *)
+  let new := new_key_of fx doc new_name in
   match tl_find L new with
-  | Some _ => Ok (RErr (taken_msg new_name))                         (* server.rs:402-413 *)
+  | Some _ => Ok (RErr (taken_msg new_name))                         (* server.rs:410-416 *)
   | None =>
-      let rel := key_parent doc in
       do s <- site;
       match s with
       | None => Ok RNone
       | Some url =>
           let key := from_rel_link_url url rel in
           match tl_find L key with
-          | None => if fx_dangling fx then Ok RNone
+          | None => if fx_dangling fx then Ok RNone                  (* `.filter(..)`, server.rs:427-432 *)
                     else Panic "to have key"                         (* graph().collect(&key) *)
           | Some nk =>
               do refers <- scan key;                                 (* the two index queries *)
@@ -195,14 +215,14 @@ Definition rename_core (fx : fixes) (o : opts) (scan : scan_t) (L : tlib) (doc :
               let export := fun k =>
                 match alookup k patch with
                 | Some (t, tb) => Ok (export_tree o (meta_of k) tb k t)
-                | None => Panic "to have key"                        (* patch.collect(key) *)
+                | None => Panic "to have key"                        (* patch.export_key(..).expect *)
                 end in
-              let new_key := from_rel_link_url new_name rel in      (* server.rs:466 *)
               do overrides <- fold_right (fun k acc => do r <- acc; do t <- export k; Ok (OpOverride k t :: r))
                                          (Ok []) aff_keys;
               do new_text <- export new_key;
-              (* name_to_url (server.rs:68-71): the name as typed, without its one `.md` (strip_md) *)
-              let stem := strip_md new_name in
+              (* the new file: `new_key.to_full_url` = base + key + ".md" (server.rs:484-492); as found
+                 name_to_url: the name as typed, without its one `.md` (strip_md) *)
+              let stem := if fx_subdir fx then new_key else strip_md new_name in
               Ok (REdits (overrides ++ [OpDelete key; OpCreate stem; OpInsert stem new_text]))
           end
       end
